@@ -44,6 +44,8 @@ def run_prog_property(ck, pid, prop_file, kinds, n_gen_quick, n_gen_thorough, st
         bad = [rec["name"] + ": " + rec["rust_raw"][:80] for rec in recs[:len(extra)] if rec["status"] != "compiled"]
         ck.obligation(f"all {len(extra)} hand-written scenario programs are accepted by the real compiler and evaluated",
                       not bad, "; ".join(bad[:3]))
+    import lowertie
+    lowertie.tie_pass(ck, sources, max_programs=160 if quick else 3000)
     issues, stats = PC.compare(recs)
     nviol = 0
     other_kinds = {}
